@@ -34,6 +34,8 @@ struct Delivery {
 
 #[derive(Clone, Debug)]
 struct Outcome {
+    /// wall-clock time between sending the ask and receiving its answer
+    elapsed_ms: u64,
     slot: usize,
     twin: bool,
     class: String, // ok / err:<kind> / unanswered
@@ -115,20 +117,22 @@ async fn run_schedule(rep: &mut Report, node: &ActorRef<ClusterActor>, db: &Data
             let t = if d.twin { &twins[d.slot] } else { &planned[d.slot] };
             let msg = ReplicateWrite { coordinator_ref: coord, coordinator_alive_since: u64::MAX, transaction: to_store_txn(t).unwrap() };
             let sent = tick();
+            let t_sent = std::time::Instant::now();
             let res = tokio::time::timeout(Duration::from_secs(20), node.ask(msg).reply_timeout(Duration::from_secs(15)).send()).await;
             let replied = tick();
             let mut o = match res {
-                Ok(Ok(a)) => Outcome { slot: d.slot, twin: d.twin, class: "ok".into(), seqs: Some((a.first_partition_sequence, a.last_partition_sequence)), sent: 0, replied: 0 },
-                Ok(Err(SendError::HandlerError(SendError::HandlerError(e)))) => Outcome { slot: d.slot, twin: d.twin, class: format!("err:{}", err_kind(&e)), seqs: None, sent: 0, replied: 0 },
-                Ok(Err(SendError::HandlerError(SendError::Timeout(_)))) => Outcome { slot: d.slot, twin: d.twin, class: "unanswered".into(), seqs: None, sent: 0, replied: 0 },
-                Ok(Err(SendError::HandlerError(SendError::ActorStopped))) => Outcome { slot: d.slot, twin: d.twin, class: "send-error:reply-dropped".into(), seqs: None, sent: 0, replied: 0 },
-                Ok(Err(SendError::HandlerError(_))) => Outcome { slot: d.slot, twin: d.twin, class: "send-error:forward-failed".into(), seqs: None, sent: 0, replied: 0 },
-                Ok(Err(SendError::Timeout(_))) => Outcome { slot: d.slot, twin: d.twin, class: "unanswered".into(), seqs: None, sent: 0, replied: 0 },
-                Ok(Err(e)) => Outcome { slot: d.slot, twin: d.twin, class: format!("send-error:{}", match e { SendError::ActorNotRunning(_) => "not-running", SendError::ActorStopped => "reply-dropped", SendError::MailboxFull(_) => "mailbox-full", _ => "other" }), seqs: None, sent: 0, replied: 0 },
-                Err(_) => Outcome { slot: d.slot, twin: d.twin, class: "unanswered".into(), seqs: None, sent: 0, replied: 0 },
+                Ok(Ok(a)) => Outcome { elapsed_ms: 0, slot: d.slot, twin: d.twin, class: "ok".into(), seqs: Some((a.first_partition_sequence, a.last_partition_sequence)), sent: 0, replied: 0 },
+                Ok(Err(SendError::HandlerError(SendError::HandlerError(e)))) => Outcome { elapsed_ms: 0, slot: d.slot, twin: d.twin, class: format!("err:{}", err_kind(&e)), seqs: None, sent: 0, replied: 0 },
+                Ok(Err(SendError::HandlerError(SendError::Timeout(_)))) => Outcome { elapsed_ms: 0, slot: d.slot, twin: d.twin, class: "unanswered".into(), seqs: None, sent: 0, replied: 0 },
+                Ok(Err(SendError::HandlerError(SendError::ActorStopped))) => Outcome { elapsed_ms: 0, slot: d.slot, twin: d.twin, class: "send-error:reply-dropped".into(), seqs: None, sent: 0, replied: 0 },
+                Ok(Err(SendError::HandlerError(_))) => Outcome { elapsed_ms: 0, slot: d.slot, twin: d.twin, class: "send-error:forward-failed".into(), seqs: None, sent: 0, replied: 0 },
+                Ok(Err(SendError::Timeout(_))) => Outcome { elapsed_ms: 0, slot: d.slot, twin: d.twin, class: "unanswered".into(), seqs: None, sent: 0, replied: 0 },
+                Ok(Err(e)) => Outcome { elapsed_ms: 0, slot: d.slot, twin: d.twin, class: format!("send-error:{}", match e { SendError::ActorNotRunning(_) => "not-running", SendError::ActorStopped => "reply-dropped", SendError::MailboxFull(_) => "mailbox-full", _ => "other" }), seqs: None, sent: 0, replied: 0 },
+                Err(_) => Outcome { elapsed_ms: 0, slot: d.slot, twin: d.twin, class: "unanswered".into(), seqs: None, sent: 0, replied: 0 },
             };
             o.sent = sent;
             o.replied = replied;
+            o.elapsed_ms = t_sent.elapsed().as_millis() as u64;
             o
         }));
     }
@@ -205,7 +209,16 @@ async fn run_schedule(rep: &mut Report, node: &ActorRef<ClusterActor>, db: &Data
                     return;
                 }
             }
-            "unanswered" | "send-error:reply-dropped" => { any_unanswered |= o.class == "unanswered"; }
+            "unanswered" | "send-error:reply-dropped" => {
+                any_unanswered |= o.class == "unanswered";
+                // the replica drops a waiting reply handle only when the buffered write is older than the buffer
+                // time-out; a handle dropped (the asker sees ActorStopped) much earlier was lost, e.g. when a
+                // duplicate was merged into the buffered write
+                if o.class == "send-error:reply-dropped" && o.elapsed_ms < buffer_timeout_ms / 2 {
+                    rep.violation("C12:reply-handle-dropped-before-the-buffer-timeout", format!("delivery of slot {} (twin={}) was answered with a dropped reply handle after {} ms (buffer time-out {buffer_timeout_ms} ms): its requester never learns the outcome", o.slot, o.twin, o.elapsed_ms), witness);
+                    return;
+                }
+            }
             _ => {}
         }
     }
